@@ -308,6 +308,38 @@ pub fn fault(a: &[u128]) -> Vec<u128> {
             let to_kind = (okind + 1) % 4;
             fsm_ob!(Ob::new(to_kind, root, t, vec![0u8; t.outboard_size() as usize]), to => io_codes(&block_on(fsm::copy(from, to))))
         }),
+        // fsm data validator, sync / fsm outboard validators: the error is the last item of the stream
+        15 => fsm_ob!(intact(), o => {
+            use futures_lite::StreamExt;
+            let mut rc = (0u128, 0u128);
+            let mut s = Box::pin(fsm::valid_ranges(o, LSliceReader(Bytes::from(data.clone()), c.clone()), &ranges));
+            while let Some(r) = block_on(s.next()) {
+                if let Err(e) = r {
+                    rc = (6, kind_code(e.kind()));
+                }
+            }
+            rc
+        }),
+        16 => sync_ob!(intact(), o => {
+            let mut rc = (0u128, 0u128);
+            for r in sync::valid_outboard_ranges(o, &ranges) {
+                if let Err(e) = r {
+                    rc = (6, kind_code(e.kind()));
+                }
+            }
+            rc
+        }),
+        17 => fsm_ob!(intact(), o => {
+            use futures_lite::StreamExt;
+            let mut rc = (0u128, 0u128);
+            let mut s = Box::pin(fsm::valid_outboard_ranges(o, &ranges));
+            while let Some(r) = block_on(s.next()) {
+                if let Err(e) = r {
+                    rc = (6, kind_code(e.kind()));
+                }
+            }
+            rc
+        }),
         // sync data validator: the error is the last item of the iterator
         _ => sync_ob!(intact(), o => {
             let mut rc = (0u128, 0u128);
